@@ -57,12 +57,12 @@ Theorem C07_cqm_cases_each_once :
 Proof. exact cqm_cases_each_once. Qed.
 Print Assumptions C07_cqm_cases_each_once.
 
-(* REFUTED for non-integral bounds: int() truncates toward zero, so an INTEGER variable with
-   lower bound 1/2 is enumerated from 0 (and one with upper bound -3/2 up to -1) *)
-Theorem C07_cqm_integer_domain_within_bounds_refuted :
-  exists (lb ub : Qc) (z : Z), In z (dom_values (DIntQ lb ub)) /\ ~ within_bounds lb ub z.
-Proof. exact cqm_integer_domain_within_bounds_refuted. Qed.
-Print Assumptions C07_cqm_integer_domain_within_bounds_refuted.
+(* INTEGER variables with arbitrary (also non-integral) bounds: every enumerated value lies
+   within [lb, ub] and every integer within the bounds is enumerated (ceil(lb) .. floor(ub)) *)
+Theorem C07_cqm_integer_domain_within_bounds :
+  forall (lb ub : Qc) (z : Z), In z (dom_values (DIntQ lb ub)) <-> within_bounds lb ub z.
+Proof. exact cqm_integer_domain_within_bounds. Qed.
+Print Assumptions C07_cqm_integer_domain_within_bounds.
 
 (* the first lowest row of a complete enumeration is a global optimum of the search space *)
 Theorem C07_lowest_is_global_optimum :
